@@ -306,7 +306,7 @@ Hypothesis Hcorner : forall y x, is_tl_corner (cv_grid cv') (k + y) x = is_tl_co
 Hypothesis Hcross : cv_cross cv' = (fst (cv_cross cv), k + snd (cv_cross cv)).
 Hypothesis Hhorz : cv_horz cv' = option_map (fun p => (fst p, k + snd p)) (cv_horz cv).
 Hypothesis Hvert : cv_vert cv' = option_map (fun p => (fst p, k + snd p)) (cv_vert cv).
-Hypothesis Hrect : forall x y r, recognize_rectangle (cv_grid cv) (x, y) = Ok r ->
+Hypothesis Hrect : forall x y r, is_tl_corner (cv_grid cv) y x = true -> recognize_rectangle (cv_grid cv) (x, y) = Ok r ->
   recognize_rectangle (cv_grid cv') (x, k + y) = Ok (shr r) /\ contains boxr (shr r) = false.
 Hypothesis Htext : forall r, In r regs -> text_from_rect (cv_text cv') (shr r) = text_from_rect (cv_text cv) r.
 
@@ -328,7 +328,7 @@ Proof.
   - right. now apply (IH _ _ _ E).
 Qed.
 
-Lemma plane_cell_tail x y cells col cc ch st1 :
+Lemma plane_cell_tail x y cells col cc ch st1 : is_tl_corner (cv_grid cv) y x = true ->
   (rect <- recognize_rectangle (cv_grid cv) (x, y) ;;
    match find_region regs rect 0 with
    | None => Err
@@ -340,8 +340,8 @@ Lemma plane_cell_tail x y cells col cc ch st1 :
    | Some (i, region) => t <- text_from_rect (cv_text cv') region ;; Ok (CRegion i region t :: map shc cells, S col, cc, ch)
    end) = Ok (shst st1).
 Proof.
-  destruct (recognize_rectangle (cv_grid cv) (x, y)) as [r| |] eqn:Er; cbn [bind]; try discriminate.
-  destruct (Hrect x y r Er) as [Hr1 Hr2]. rewrite Hr1. cbn [bind find_region]. rewrite Hr2, find_region_shr.
+  intro Hc. destruct (recognize_rectangle (cv_grid cv) (x, y)) as [r| |] eqn:Er; cbn [bind]; try discriminate.
+  destruct (Hrect x y r Hc Er) as [Hr1 Hr2]. rewrite Hr1. cbn [bind find_region]. rewrite Hr2, find_region_shr.
   destruct (find_region regs r 0) as [[n a]|] eqn:Ef; cbn [option_map fst snd]; [|discriminate].
   rewrite (Htext a (find_region_in _ _ _ _ _ Ef)). destruct (text_from_rect (cv_text cv) a) as [t| |]; cbn [bind]; try discriminate.
   intro E. injection E as <-. reflexivity.
@@ -349,10 +349,10 @@ Qed.
 
 Lemma plane_cell_shift y st x st1 : plane_cell cv regs y st x = Ok st1 -> plane_cell cv' regs' (k + y) (shst st) x = Ok (shst st1).
 Proof.
-  unfold plane_cell. rewrite Hcorner. destruct (is_tl_corner (cv_grid cv) y x); [|intro E; now injection E as <-].
+  unfold plane_cell. rewrite Hcorner. destruct (is_tl_corner (cv_grid cv) y x) eqn:Hc; [|intro E; now injection E as <-].
   destruct st as (((cells & col) & cc) & ch). cbn [shst]. rewrite Hcross, Hhorz. cbn [fst].
   destruct (x =? fst (cv_cross cv)); destruct (cv_horz cv) as [p|]; cbn [option_map fst]; try destruct (x =? fst p);
-    intro E; apply (plane_cell_tail x y) in E; exact E.
+    intro E; apply (plane_cell_tail x y _ _ _ _ _ Hc) in E; exact E.
 Qed.
 
 Lemma map_shc_plain (f : nat -> ccell) l : (forall i, match f i with CRegion _ _ _ => False | _ => True end) -> map shc (map f l) = map f l.
